@@ -78,6 +78,7 @@ type FuncContract struct {
 	Views        []string          // alternative (abstract) contracts of callees this unit is verified against
 	ReadsOnly    map[string][]string // parameter name -> the only fields of its pointee the call tree may read
 	NoWrites     bool                // the call tree performs no store to non-local memory (mechanical scan)
+	AtReturn     map[int][]Clause // ordinal (source order) of a return statement -> condition that must hold there
 	AtStore      map[string][]Clause // field name -> condition on the stored `value` at every store to that field
 	AtCall       map[string][]Clause // callee name -> conditions that must hold in the caller right before each call
 	AllowExtern  []string
@@ -161,7 +162,7 @@ func newContracts() *Contracts {
 		Ghosts: map[string]*GhostVar{}, Externs: map[string]*FuncContract{}, Writers: map[string][]string{}, Scenarios: map[string]*Scenario{}, ImportsByPkg: map[string][]string{}}
 }
 
-var kwRe = regexp.MustCompile(`^(import|define|ghost|func|extern|lemma|axiom|fact|scenario|do|establishes|writers|callers-inline|thorough-only|prefix-only|abstract|at-store|reads-only|no-writes|callback-modifies|callback-ensures|callback-requires|views|at-call|allow-extern|props|requires|ensures|modifies|nopanic|exact-conversions|trusted|inline|split|loop|assert|use|hyp|concl|timeout|bounded|opaque)\b`)
+var kwRe = regexp.MustCompile(`^(import|define|ghost|func|extern|lemma|axiom|fact|scenario|do|establishes|writers|callers-inline|thorough-only|prefix-only|abstract|at-store|at-return|reads-only|no-writes|callback-modifies|callback-ensures|callback-requires|views|at-call|allow-extern|props|requires|ensures|modifies|nopanic|exact-conversions|trusted|inline|split|loop|assert|use|hyp|concl|timeout|bounded|opaque)\b`)
 
 func parseExprSrc(src string) (ast.Expr, error) {
 	// ==> is written as implies(); allow `a ==> b` at top level as sugar, right-assoc
@@ -390,6 +391,24 @@ func (cs *Contracts) LoadContractFile(path string, pkgShort string) error {
 			cur.ReadsOnly[strings.TrimSpace(r.text[:i])] = strings.Fields(r.text[i+1:])
 		case "no-writes":
 			cur.NoWrites = true
+		case "at-return":
+			// at-return N requires EXPR
+			f := strings.SplitN(r.text, " requires ", 2)
+			if len(f) != 2 {
+				return fmt.Errorf("%s:%d: at-return N requires EXPR", path, r.line)
+			}
+			n, err := strconv.Atoi(strings.TrimSpace(f[0]))
+			if err != nil {
+				return fmt.Errorf("%s:%d: at-return N requires EXPR", path, r.line)
+			}
+			c, err := mkClause(rawClause{"at-return", strings.TrimSpace(f[1]), r.line})
+			if err != nil {
+				return err
+			}
+			if cur.AtReturn == nil {
+				cur.AtReturn = map[int][]Clause{}
+			}
+			cur.AtReturn[n] = append(cur.AtReturn[n], c)
 		case "at-store":
 			f := strings.SplitN(r.text, " requires ", 2)
 			if len(f) != 2 {
